@@ -288,3 +288,40 @@ Proof.
   destruct (run_sop_io pf js fs cur st o io) as [code st'] eqn:R. cbn [fst snd] in *.
   rewrite (failed_op_io_keeps_file _ _ _ _ _ _ _ _ _ R N). reflexivity.
 Qed.
+
+(* ------------------------------------------------------------------ read faults *)
+Lemma failed_op_f_keeps_file : forall pf js fs cur st o f code st',
+  run_sop_f pf js fs cur st o f = (code, st') -> code <> 0 -> st' = st.
+Proof.
+  intros pf js fs cur st o f code st' H N. destruct f; cbn [run_sop_f] in H.
+  - apply (failed_op_io_keeps_file _ _ _ _ _ _ _ _ _ H N).
+  - apply (failed_op_io_keeps_file _ _ _ _ _ _ _ _ _ H N).
+  - destruct ((fst (run_sop pf js fs cur st o) =? 1) || (fst (run_sop pf js fs cur st o) =? 2)); inversion H; reflexivity.
+Qed.
+
+(* a request whose read of the settings file fails never succeeds and never writes *)
+Lemma read_fault_is_reported_lemma : forall pf js fs cur st o,
+  fst (run_sop_f pf js fs cur st o ReadFault) <> 0 /\ snd (run_sop_f pf js fs cur st o ReadFault) = st.
+Proof.
+  intros pf js fs cur st o. cbn [run_sop_f].
+  destruct ((fst (run_sop pf js fs cur st o) =? 1) || (fst (run_sop pf js fs cur st o) =? 2)) eqn:E; cbn [fst snd].
+  - split; [|reflexivity]. apply orb_true_iff in E. destruct E as [E|E]; lia.
+  - split; [lia|reflexivity].
+Qed.
+
+Lemma run_hist_f_cons : forall pf js fs cur st ob h,
+  run_hist_f pf js fs cur st (ob :: h) = run_hist_f pf js fs cur (snd (run_sop_f pf js fs cur st (fst ob) (snd ob))) h.
+Proof. reflexivity. Qed.
+
+(* histories with write faults AND read faults: the file at the end is what the successful requests
+   alone produce *)
+Lemma faults_leave_no_trace_lemma : forall pf js fs cur h st,
+  run_hist_f pf js fs cur st h = run_hist_f pf js fs cur st (successes_f pf js fs cur st h).
+Proof.
+  intros pf js fs cur. induction h as [|ob r IH]; intro st; [reflexivity|].
+  cbn [successes_f]. rewrite run_hist_f_cons.
+  destruct (run_sop_f pf js fs cur st (fst ob) (snd ob)) as [code st'] eqn:R. cbn [snd].
+  destruct (code =? 0) eqn:E.
+  - rewrite run_hist_f_cons, R. cbn [snd]. apply IH.
+  - assert (N : code <> 0) by lia. rewrite (failed_op_f_keeps_file _ _ _ _ _ _ _ _ _ R N). apply IH.
+Qed.
